@@ -98,9 +98,12 @@ def _(self, data: ByteArray, offset: Nat, length: Opt(Int)) -> Tup(NoneT, Int):
     ensures(result == (None, offset))
 
 
-@contract("ArrayType.decode_content", props=["C08", "C16", "C04"], for_class="*")
+@contract("ArrayType.decode_content", props=["C08", "C16", "C04", "C15"], for_class="*")
 def _(self, data: ByteArray, offset: Nat, length: Opt(Int)):
     refines("StandardDecodeMixin.decode_content")
+    # C15 (tail independence): a definite-length array ends where its last element ended (or at its start when empty);
+    # the end-of-contents test is applied to indefinite-length arrays only, so bytes after the array are never inspected
+    at_stmt("break", check=[length is None or (offset - start_offset >= length and offset == at_head(offset))])
     loop(0, invariant=[offset >= start_offset, offset <= len(data)], decreases=len(data) - offset)
 
 
@@ -156,7 +159,7 @@ def _(self, data: ByteArray, offset: Nat, length: Opt(Int)):
     ensures(implies(tc_val(list(data[offset:offset + length])) not in self.value_to_data, result[0] is None))
 
 
-@contract("ExplicitTag.decode_content", props=["C08", "C16", "C04"])
+@contract("ExplicitTag.decode_content", props=["C08", "C16", "C04", "C15"])
 def _(self, data: ByteArray, offset: Nat, length: Opt(Int)):
     refines("StandardDecodeMixin.decode_content")
 
